@@ -1,1 +1,44 @@
 //! Verification hook: public wrapper of the connection pool (pool::PoolWatch).
+use std::collections::HashSet;
+
+use crate::pool::PoolWatch;
+
+/// Public newtype around the crate-private `PoolWatch`. Adds no behaviour.
+pub struct Pool<K, V>(PoolWatch<K, V>);
+
+impl<K: std::hash::Hash + Eq + Clone, V: Clone> Pool<K, V> {
+    /// `PoolWatch::new`.
+    pub fn new(allowed: HashSet<K>, extra_limit: usize) -> Self {
+        Self(PoolWatch::new(allowed, extra_limit))
+    }
+
+    /// `PoolWatch::insert`.
+    pub async fn insert(&self, k: K, v: V) -> anyhow::Result<()> {
+        self.0.insert(k, v).await
+    }
+
+    /// `PoolWatch::remove`.
+    pub async fn remove(&self, k: &K) {
+        self.0.remove(k).await
+    }
+
+    /// `PoolWatch::current`, as a vector (iteration order of the hash map; callers sort).
+    pub fn current(&self) -> Vec<(K, V)> {
+        self.0
+            .current()
+            .iter()
+            .map(|(k, v)| (k.clone(), v.clone()))
+            .collect()
+    }
+
+    /// Contents as seen by a subscriber of the watch (`PoolWatch::subscribe`).
+    pub fn subscribed(&self) -> Vec<(K, V)> {
+        self.0
+            .subscribe()
+            .borrow()
+            .current()
+            .iter()
+            .map(|(k, v)| (k.clone(), v.clone()))
+            .collect()
+    }
+}
